@@ -128,8 +128,11 @@ fn number_enumerals(
         let mut ext_enumerals = Vec::<Enumeral>::with_capacity(additions.len());
         for item in &additions {
             let index = item.1.unwrap_or_else(|| {
-                let mut candidate = ext_enumerals.last().map_or(0, |e| (e.index + 1).max(0));
-                while root_enumerals.iter().any(|e| e.index == candidate) {
+                let mut candidate = ext_enumerals
+                    .last()
+                    .map_or(0, |e| e.index.saturating_add(1).max(0));
+                while candidate < i128::MAX && root_enumerals.iter().any(|e| e.index == candidate)
+                {
                     candidate += 1;
                 }
                 candidate
